@@ -22,7 +22,7 @@ def run(ctx):
     if ctx.violations:
         return
     if ch.coin(1, 4, "continue-on-loaded"):
-        c_persist.continue_on_loaded(ctx, h.to_json(), label)
+        c_persist.continue_on_loaded(ctx, h.to_json(), label, orig=h)
         if ctx.violations:
             return
     # packages built from it (modules only here; extensions are covered by C10's documents)
